@@ -13,6 +13,7 @@ type Seg struct {
 	N    int    `json:"n"` // length in bytes
 	A    int    `json:"a,omitempty"`
 	Seed uint64 `json:"s,omitempty"`
+	Raw  []byte `json:"raw,omitempty"` // kind "raw": literal bytes (used by fuzz targets and replays)
 }
 
 // Recipe describes a byte string compactly.
@@ -56,6 +57,8 @@ func (s Seg) appendTo(out []byte) []byte {
 	x := xs{s: s.Seed*0x9E3779B97F4A7C15 + 0x1234567}
 	n := s.N
 	switch s.Kind {
+	case "raw":
+		out = append(out, s.Raw...)
 	case "run":
 		b := byte(s.A)
 		for i := 0; i < n; i++ {
